@@ -200,3 +200,57 @@ func HarnessC15ProbeLifecycle() {
 	}
 	vreach("end")
 }
+
+// HarnessC15EndpointSubsetRemoval: ONE update removes an arbitrary subset of a cluster's endpoints (none, one, several,
+// all): every removed endpoint's context is cancelled, every kept one's is not, kept ones stay registered for probing
+// and are the only ones picked.
+// verif:bounds one cluster with three endpoints; each kept / removed symbolically in a single update; picks probed 3 times
+func HarnessC15EndpointSubsetRemoval() {
+	names := [3]string{"https://a1", "https://a2", "https://a3"}
+	c := c15Cluster("a", names[0], names[1], names[2])
+	var infos [3]*EndpointInfo
+	var keep [3]bool
+	var servers []proxyv1alpha1.UpstreamClusterServer
+	nKept := 0
+	for i, n := range names {
+		infos[i], _ = c.Endpoints.Load(n)
+		keep[i] = nondetBool("keep", i)
+		if keep[i] {
+			servers = append(servers, proxyv1alpha1.UpstreamClusterServer{Endpoint: n})
+			nKept++
+		}
+	}
+	if err := c.syncEndpoints(servers); err != nil {
+		vfail("C15/sync-fails")
+		return
+	}
+	for i := range names {
+		if infos[i] == nil {
+			vfail("C15/setup-fails")
+			return
+		}
+		if keep[i] {
+			vassert(infos[i].ctx.Err() == nil, "C15/kept-endpoint-cancelled")
+			vassert(infos[i].cancelHealthCheck != nil, "C15/kept-endpoint-lost-its-probe-loop")
+		} else {
+			vassert(infos[i].ctx.Err() != nil, "C15/removed-endpoint-not-cancelled")
+			_, still := c.Endpoints.Load(names[i])
+			vassert(!still, "C15/removed-endpoint-still-in-endpoint-map")
+		}
+	}
+	for i := 0; i < 3; i++ {
+		ep, err := c.PickOne()
+		if nKept == 0 {
+			vassert(err != nil, "C15/removed-endpoint-still-picked-or-kept-one-not")
+			continue
+		}
+		picked := -1
+		for j := range infos {
+			if infos[j] == ep {
+				picked = j
+			}
+		}
+		vassert(err == nil && picked >= 0 && keep[picked], "C15/removed-endpoint-still-picked-or-kept-one-not")
+	}
+	vreach("end")
+}
